@@ -44,3 +44,8 @@ static_assert(std::is_same_v<decltype(&nano::dtree_wlearner_t::try_merge), nv_ba
 // struct with m_feature / m_threshold / m_table assigned before use; m_next == 0 ("leaf until linked") is relied on
 static_assert(nano::dtree_node_t{}.m_next == 0U && nano::dtree_node_t{}.m_table == -1 && nano::dtree_node_t{}.m_feature == -1,
               "dtree_node_t default member initialisers");
+// enumerator values used as `case` labels in the C rendering of wlearner::make_score (specs/C10/criterion.h)
+#include <nano/wlearner/criterion.h>
+static_assert(static_cast<int>(nano::wlearner_criterion::rss) == 0 && static_cast<int>(nano::wlearner_criterion::aic) == 1 &&
+                  static_cast<int>(nano::wlearner_criterion::aicc) == 2 && static_cast<int>(nano::wlearner_criterion::bic) == 3,
+              "NVE_wlearner_criterion_*");
